@@ -10,6 +10,11 @@
   (where <member> <kind> raw raw)        → (ok (<cmp> <int>)*) | (error <Exc>) Ordinal.where
   (windows ord ((raw raw)*) (<int>*))    → ((ok <idx>*) | (error <Exc>))*      one launch per window
   (train raw raw)                        → raw                                 Runner.train lower bound
+  (chain ord raw (raw*) (<int>*))        → (ok (raw*) ((<idx>*)*)) | (error <Exc>)
+        incremental trainings without explicit lower bound: first tag ordinal, the upper bound of each training
+        (recorded as the next tag's ordinal), data → lower bounds handed to Feed.load, rows per training
+
+  The model is polymorphic in the ordinal axis; the driver runs it at `Int` (ranks of the kind's domain points).
 -/
 import ForML.Model.Sexp
 import ForML.Model.Ordinal
@@ -52,7 +57,7 @@ def member? : Sexp → Option Once
   | .atom s => Once.all.find? (fun m => m.name == s)
   | _ => none
 
-def raw? : Sexp → Option (Option Raw)
+def raw? : Sexp → Option (Option (Raw Int))
   | .atom "none" => some none
   | .list [t, p, b] => do pure (some ⟨← pyt? t, ← p.int?, ← bool? b⟩)
   | _ => none
@@ -62,13 +67,13 @@ def ord? : Sexp → Option (Option (Kind × Once))
   | .list [k, m] => do pure (some (← kind? k, ← member? m))
   | _ => none
 
-def win? : Sexp → Option (Option Raw × Option Raw)
+def win? : Sexp → Option (Option (Raw Int) × Option (Raw Int))
   | .list [a, b] => do pure (← raw? a, ← raw? b)
   | _ => none
 
 def ofErr (e : Err) : Sexp := .list [.atom "error", .atom e.name]
 
-def ofRaw : Option Raw → Sexp
+def ofRaw : Option (Raw Int) → Sexp
   | none => .atom "none"
   | some r => .list [.atom (pytName r.ty), Sexp.ofInt r.pt, Sexp.ofBool r.truthy]
 
@@ -110,6 +115,18 @@ def stepC10 : Sexp → Sexp
     match raw? lo, raw? tag with
     | some lo, some tag => ofRaw (trainLower lo tag)
     | _, _ => .atom "bad-op"
+  | .list [.atom "chain", o, tag, .list us, d] =>
+    match ord? o, raw? tag, us.mapM raw?, d.intList? with
+    | some o, some tag, some us, some d =>
+      match us.mapM id with
+      | some us =>
+        let wins := trainChain tag us
+        match launches o wins d with
+        | .ok ls => .list [.atom "ok", .list (wins.map (fun w => ofRaw w.1)),
+                           .list (ls.map (fun l => .list (l.map Sexp.ofNat)))]
+        | .error e => ofErr e
+      | none => .atom "bad-op"
+    | _, _, _, _ => .atom "bad-op"
   | _ => .atom "bad-op"
 
 def main : IO Unit := driverLoop stepC10
